@@ -105,9 +105,10 @@ func c03Specs() []progSpec {
 		{"commit2", func() frontend.Circuit { return &cm2{} }, func(q *big.Int) frontend.Circuit { return &cm2{X: 3, W: 5, Y: 9, Z: 4} }, func(q *big.Int) frontend.Circuit { return &cm2{X: 3, W: 5, Y: 8, Z: 4} }},
 		{"commit2-independent", func() frontend.Circuit { return &cm2i{} }, func(q *big.Int) frontend.Circuit { return &cm2i{X: 3, W: 5, P1: 9, P2: 7} }, func(q *big.Int) frontend.Circuit { return &cm2i{X: 3, W: 5, P1: 10, P2: 7} }},
 		{"commit3", func() frontend.Circuit { return &cm3{} }, func(q *big.Int) frontend.Circuit { return &cm3{X: 2, W: 5, V: 11, P1: 4, P2: 6} }, func(q *big.Int) frontend.Circuit { return &cm3{X: 2, W: 5, V: 11, P1: 5, P2: 6} }},
+		{"commit3-second-only", func() frontend.Circuit { return &cm3b{} }, func(q *big.Int) frontend.Circuit { return &cm3b{X: 2, W: 5, V: 11, P1: 4} }, func(q *big.Int) frontend.Circuit { return &cm3b{X: 2, W: 5, V: 11, P1: 5} }},
 		{"hints+wide-level", func() frontend.Circuit { return &hintyCircuit{} }, func(q *big.Int) frontend.Circuit { return &hintyCircuit{X: 300, Y: 7, Z: 300*7 + 44} }, func(q *big.Int) frontend.Circuit { return &hintyCircuit{X: 300, Y: 7, Z: 1} }},
 	}
-	for _, n := range []int{1, 2, 3, 5, 6, 7, 14, 15} { // domain sizes 2..16 incl. the tiny-domain rule of the PLONK prover
+	for _, n := range []int{1, 2, 3, 4, 5, 6, 7, 14, 15} { // domain sizes 2..16 incl. the tiny-domain rule of the PLONK prover
 		n := n
 		specs = append(specs, progSpec{fmt.Sprintf("size-%d", n), func() frontend.Circuit { return &sizedCircuit{n: n} },
 			func(q *big.Int) frontend.Circuit { return &sizedCircuit{X: 3, Y: pw(3, n, q), n: n} },
